@@ -377,6 +377,10 @@ func serveTags(c serveCase, o serveObs) []string {
 	if !strings.HasPrefix(c.root, "/") {
 		t = append(t, "serve:relative-root")
 	}
+	t = append(t, "serve:config-via-"+string(c.via))
+	if c.indexOmitted {
+		t = append(t, "serve:index-names-defaulted")
+	}
 	if kindOf == "redirect" {
 		if strings.HasPrefix(c.orig, "//") {
 			t = append(t, "serve:redirect-from-double-slash-original")
